@@ -205,6 +205,14 @@ def tbr_aggregation(repo, rep, rule):
                       f.qualname, '%s.loc[%s]' % (base, sel), '%s selects `%s.loc[%s]` instead of the %s rows of the requested periods' % (name, base, sel, grp), f.loc(sub))
     if not found:
       rep.undecided(rule, name, 'no .loc selection found', f.loc())
+  # the design matrix is (1, control series): an intercept column is added in front
+  dm = cls.methods.get('_design_matrix')
+  if dm is not None:
+    txt = norm(dm.node)
+    okc = re.search(r"\.insert\(0, '\w+', 1(\.0)?\)", txt) is not None or 'add_constant(' in txt
+    rep.check(okc, rule, 'the regression has an intercept: constant column in front of the control series', dm.qualname, 'design matrix construction',
+              '_design_matrix no longer adds the constant column in front of the control series: the counterfactual is not the OLS fit with intercept (and the parameter covariance no longer matches the running means)',
+              dm.loc())
 
 
 def distribution_rules(repo, rep, prefix):
